@@ -461,15 +461,16 @@ def rule_dispatch(ctx: Ctx, repo: Repo) -> None:
 def run(ctx: Ctx, repo: Repo, tier: str) -> None:
     ctx.trust(*TRUSTED)
     ctx.assume("sys.setprofile delivers one 'call' per frame entry/resumption and one 'return' per exit/suspension")
-    rule_return_table(ctx, repo)
-    rule_who_may_write(ctx, repo)
-    rule_attribution(ctx, repo)
-    rule_arg_capture(ctx, repo)
-    rule_no_overwrite(ctx, repo)
-    rule_dispatch(ctx, repo)
+    ctx.attempt(rule_return_table, ctx, repo)
+    ctx.attempt(rule_who_may_write, ctx, repo)
+    ctx.attempt(rule_attribution, ctx, repo)
+    ctx.attempt(rule_arg_capture, ctx, repo)
+    ctx.attempt(rule_no_overwrite, ctx, repo)
+    ctx.attempt(rule_dispatch, ctx, repo)
     from .memo_rules import tracer_no_memory
-    tracer_no_memory(ctx, repo, "R-C02.8")
+    ctx.attempt(tracer_no_memory, ctx, repo, "R-C02.8")
     from .memo_rules import infer_no_memory
-    infer_no_memory(ctx, repo, "R-C02.8")
+    ctx.attempt(infer_no_memory, ctx, repo, "R-C02.8")
     from .memo_rules import tracer_attribution_history
-    tracer_attribution_history(ctx, repo, "R-C02.4")
+    ctx.attempt(tracer_attribution_history, ctx, repo, "R-C02.4")
+    ctx.settle()
